@@ -177,3 +177,19 @@ Definition pack_message (m : message) (tcp : bool) : result bytes :=
 (* one datagram through the layer with no addon change: unpack, then pack_message *)
 Definition forward_udp (buf : bytes) : result bytes :=
   bind (unpack buf) (fun m => pack_message m false).
+
+(* one length-prefixed message of a TCP stream through the layer: unpack_message copies the frame
+   out (so compression pointers are relative to the message, not to the stream buffer), then
+   pack_message with the 2-byte length prefix *)
+Definition forward_tcp_frame (msg : bytes) : result bytes :=
+  bind (unpack msg) (fun m => pack_message m true).
+
+(* a stream of frames that are all forwarded: the bytes sent on, in order; None as soon as one is not *)
+Fixpoint forward_tcp_stream (msgs : list bytes) : option bytes :=
+  match msgs with
+  | [] => Some []
+  | m :: r => match forward_tcp_frame m, forward_tcp_stream r with
+              | Ok f, Some o => Some (f ++ o)
+              | _, _ => None
+              end
+  end.
